@@ -189,6 +189,19 @@ func (p *tyPoolZ) %s(a int, b int) (res int) {
 		plan["(*tyFileZ).Close"] = "kept"
 		res.Count("scenarios_with_same_name_methods", 1)
 	}
+	if idx%32 == 5 {
+		// many functions of one shape (generated accessors), all renamed in one revision
+		for k := 0; k < 72; k++ {
+			on, nn := fmt.Sprintf("get%02dField", k), fmt.Sprintf("fetch%02dField", k)
+			mk := func(name string) gen.Func {
+				return gen.Func{Name: name, Sig: gen.SigII, Tags: []string{"accessor-crowd"}, Text: fmt.Sprintf("func %s(a int, b int) (res int) {\n\treturn a*%d + b\n}\n", name, 3+k)}
+			}
+			base.Funcs = append(base.Funcs, mk(on))
+			keep = append(keep, mk(nn))
+			plan[on], rename[on] = "renamed", nn
+		}
+		res.Count("scenarios_with_accessor_crowd", 1)
+	}
 	if idx%8 == 0 {
 		// functions beyond the fingerprinter's size guard (they all carry the same marker
 		// instead of a fingerprint): one is only renamed, one is removed, an unrelated one of
